@@ -14,7 +14,6 @@ import (
 	"os"
 	"path/filepath"
 	"runtime"
-	"runtime/metrics"
 	"sync"
 	"sync/atomic"
 	"testing"
@@ -231,11 +230,14 @@ func startWatchdog() {
 	})
 }
 
-var allocSample = []metrics.Sample{{Name: "/gc/heap/allocs:bytes"}}
-
+// allocBytes returns the cumulative bytes allocated. runtime.ReadMemStats flushes the per-P allocation
+// caches first, so the difference of two readings is exact; the cheaper runtime/metrics counter lags by up to
+// several hundred KiB of not yet flushed allocations and attributed them to the wrong datagram (it raised a
+// false alarm inside the native fuzz target).
 func allocBytes() uint64 {
-	metrics.Read(allocSample)
-	return allocSample[0].Value.Uint64()
+	var ms runtime.MemStats
+	runtime.ReadMemStats(&ms)
+	return ms.TotalAlloc
 }
 
 // ---------------------------------------------------------------- execution
